@@ -40,14 +40,4 @@ ManifestValues    == [p \in M3Pkgs |-> {p \o "/x"} \cup M3Globals]     \* rewrit
 ManifestOwnKey(p, val, st) ==
   [f |-> [i \in ManifestStatFiles[p] |-> st[i]], v |-> [i \in ManifestValues[p] |-> val[i]]]
 
-\* ---- probes: restrict the history to edits of one kind on one input -------------
-CONSTANTS ProbeInput, ProbeKind
-
-ProbeNext ==
-  /\ Len(hist) < MaxLen
-  /\ \/ (ProbeKind = "edit"  /\ Edit(ProbeInput))
-     \/ (ProbeKind = "keep"  /\ EditKeepStat(ProbeInput))
-     \/ (ProbeKind = "touch" /\ TouchOnly(ProbeInput))
-     \/ Build \/ NoopBuild \/ ClearCache
-ProbeSpec == Init /\ [][ProbeNext]_vars
 =============================================================================
